@@ -19,7 +19,7 @@ TIMEOUTS = [20, 1, 0.5, 2.5]
 BUFS = [1, 100, 1000000]
 TRANSPORTS = [None, ['polling'], ['websocket'], ['polling', 'websocket']]
 COOKIES = ['none', 'name', 'dict_str', 'dict_true', 'dict_false', 'dict_callable', 'dict_callable_false', 'dict_noname']
-OUTCOMES = ['None', 'True', 'False', '0', 'empty', 'text', 'dict', 'list', 'raise', 'raise_type', 'send_accept', 'send_reject']
+OUTCOMES = ['None', 'True', 'False', '0', 'empty', 'text', 'dict', 'list', 'one', 'one_float', 'raise', 'raise_type', 'send_accept', 'send_reject']
 
 
 _COOKIE_BOX = {'n': 0}     # set by the harness before each open; the callable cookie attribute reads it
@@ -80,6 +80,7 @@ def outcome_effects(o):
     return {'None': [], 'True': [('return', True)], 'False': [('return', False)],
             '0': [('return', 0)], 'empty': [('return', '')], 'text': [('return', 'no')],
             'dict': [('return', {'a': 1})], 'list': [('return', [1])],
+            'one': [('return', 1)], 'one_float': [('return', 1.0)],       # JSON values that equal True without being True
             'raise': [('raise', 'boom')],
             'raise_type': [('raise_type',)]}[o]      # an application bug of the TypeError kind inside the handler
 
@@ -88,7 +89,7 @@ def outcome_ref(o):
     """(accepted, body-json-or-None-for-default)."""
     if o in ('None', 'True', 'send_accept'):
         return True, None
-    return False, {'text': 'no', 'dict': {'a': 1}, 'list': [1]}.get(o)
+    return False, {'text': 'no', 'dict': {'a': 1}, 'list': [1], 'one': 1, 'one_float': 1.0}.get(o)
 
 
 def default_cell():
